@@ -46,7 +46,7 @@ def correspond(ctx, cases, fields, stream, canon=None, timeout_ms=4000, skip=Non
             # exponential backtracking on an ambiguous spec: neither side is compared (C03 judges liveness)
             ctx.timeouts += 1
             continue
-        if a["outcome"][0] in ("crash", "died", "stackoverflow") and b["outcome"][0] not in ("model-error",):
+        if a["outcome"][0] in ("crash", "died", "stackoverflow", "memory") and b["outcome"][0] not in ("model-error",):
             # a runtime error is never one of the documented outcomes, whatever the property
             ctx.violation("runtime-error", "argv %r (spec %r, env %r): the library dies with %r" %
                           (c["argv"], c["root"].get("spec"), c.get("env"), a["outcome"]), case=c)
@@ -376,7 +376,7 @@ def judge_sentences(ctx, cases, res, prop):
         if hh == "1" or q1 == "1" or lo != hi or lo == "unclaimed":
             stats["unclaimed"] += 1
             continue
-        if a["outcome"][0] in ("timeout", "died", "stackoverflow", "crash"):
+        if a["outcome"][0] in ("timeout", "died", "stackoverflow", "crash", "memory"):
             continue        # C03's business
         if a["outcome"] == ("ret", "conv"):
             continue
@@ -730,27 +730,47 @@ def check_C03(ctx):
                      "argv": ["-" + ch for _ in range(per) for ch in "abcdef"] + ["-Z"], "_distinct": 6, "_occ": 6 * per})
     # (6) very long lines (thousands of file names, of repetitions of one flag): accepted or rejected, within the deadline --
     # the cost of a step must not grow with what is left of the line (D13)
-    for sp, tok, n_, tail in (("SRC...", "x", 16000, []), ("-a...", "-a", 12000, []), ("SRC... X", "x", 16000, []),
+    for sp, tok, n_, tail in (("SRC...", "x", 16000, []), ("-a...", "-a", 6000, []), ("SRC... X", "x", 16000, []),
                               ("[-a]... SRC...", "x", 12000, ["-Z"]), ("(SRC X | SRC)...", "x", 8000, ["-Z"])):
         ld = [gen.mkopt("bool", "a", **{"def": ["false"]}), gen.mkarg("strings", "SRC"), gen.mkarg("string", "X", **{"def": [""]})]
         many.append({"op": "run", "env": {}, "version": None, "root": gen.mkcmd("app", decls=ld, spec=sp, policy=0), "argv": [tok] * n_ + tail})
+    # ... and what is kept alive while such a line is REJECTED must not grow with the square of its length (D15): 8000 names of
+    # a hundred bytes and a stray option at the end (the harness ends a case whose heap passes 1.5 GiB)
+    ld2 = [gen.mkopt("bool", "f", **{"def": ["false"]}), gen.mkarg("strings", "SRC"), gen.mkarg("string", "DST", **{"def": [""]})]
+    for sp in ("[-f] SRC... DST", "(SRC... DST) | (SRC... -f)"):
+        many.append({"op": "run", "env": {}, "version": None, "root": gen.mkcmd("app", decls=copy.deepcopy(ld2), spec=sp, policy=0),
+                     "argv": ["/some/where/deep/in/a/tree/of/directories/" + "n" * 50 + "%05d" % i_ for i_ in range(8000)] + ["-f"]})
+    # (7) big specs: the parser and the shortcut elimination recurse (depth = nesting depth, resp. number of states) and the
+    # elimination is cubic in the number of optional atoms in a row. Up to a nesting of 2000, 20000 atoms in a row and 400
+    # optional atoms the library must answer within the deadline; a spec of a hundred thousand unclosed parentheses exhausts
+    # the stack (known finding K4; the worker's stack is limited to 64 MiB, a program's to 1 GiB: eight times deeper)
+    bigspec_decl = [gen.mkarg("strings", "A")]
+    for sp, k4 in (("(" * 2000 + "A" + ")" * 2000, False), ("[" * 2000 + "A" + "]" * 2000, False), ("(" * 2000, False), ("A " * 20000, False),
+                   ("[A] " * 400, False), ("(" * 100000, True)):
+        many.append({"op": "run", "env": {}, "version": None, "root": gen.mkcmd("app", decls=copy.deepcopy(bigspec_decl), spec=sp, policy=0),
+                     "argv": ["x"], "_k4": k4})
     number(many, start=10 ** 6)
     mres = core.run_impl(many, timeout_ms=10000)
+    k4 = [r for kind_, prop_, r in core.known_findings() if kind_ == "known" and prop_ == "C03" and "id=K4" in r]
     k3 = [r for kind_, prop_, r in core.known_findings() if kind_ == "known" and prop_ == "C03" and "id=K3" in r]
     for c in many:
         ctx.count(c)
         oc = core.obs_impl(mres[c["id"]])["outcome"]
-        if oc[0] in ("timeout", "died", "stackoverflow", "crash"):
+        if oc[0] in ("timeout", "died", "stackoverflow", "crash", "memory"):
+            if c.get("_k4") and k4 and oc[0] in ("stackoverflow", "timeout"):
+                if not any(k.startswith("id=K4") for k in ctx.known):
+                    ctx.known.append("id=K4 a spec of %d bytes exhausts the stack of the worker (%s)" % (len(c["root"]["spec"]), oc[0]))
+                continue
             # K3: no answer in time, on a line giving at least 20 different options that are separate atoms of the spec, or
             # at least 40 occurrences of 6 different options under an explicit repeated choice -- and nothing else
-            if oc[0] == "timeout" and k3 and (c.get("_distinct", 0) >= 20 or (c.get("_distinct", 0) >= 6 and c.get("_occ", 0) >= 40)):
-                line = "id=K3 no answer within 10 s on a rejected line with many different options as separate atoms (spec %r..., %d tokens)" % (c["root"]["spec"][:40], len(c["argv"]))
+            if oc[0] in ("timeout", "memory") and k3 and (c.get("_distinct", 0) >= 20 or (c.get("_distinct", 0) >= 6 and c.get("_occ", 0) >= 40)):
+                line = "id=K3 no answer within 10 s and 1.5 GiB on a rejected line with many different options as separate atoms (spec %r..., %d tokens)" % (c["root"]["spec"][:40], len(c["argv"]))
                 if not any(k.startswith("id=K3") for k in ctx.known):
                     ctx.known.append(line)
                 continue
             ctx.violation("liveness", "spec %r, command line of %d tokens %r...: %s" %
                           (c["root"]["spec"], len(c["argv"]), c["argv"][:12],
-                           "no answer within 10 s" if oc[0] == "timeout" else "ends with %r" % (oc,)), case=c, impl=list(oc))
+                           "no answer within 10 s" if oc[0] == "timeout" else "needs more than 1.5 GiB" if oc[0] == "memory" else "ends with %r" % (oc,)), case=c, impl=list(oc))
     res = correspond(ctx, run_cases, ["outcome"], "specs x command lines x env subsets", timeout_ms=10000)
     bad = 0
     for c in run_cases:
@@ -758,7 +778,7 @@ def check_C03(ctx):
         oc = a["outcome"]
         if oc[0] == "timeout" and b["outcome"][0] == "model-error":
             continue        # exponential for the model too: inherent to backtracking, not a hang
-        if oc[0] in ("timeout", "died", "stackoverflow", "crash"):
+        if oc[0] in ("timeout", "died", "stackoverflow", "crash", "memory"):
             what = {"timeout": "does not finish within the deadline", "stackoverflow": "exhausts the stack",
                     "died": "kills the process", "crash": "dies with a runtime error: %s" % (oc[1:],)}[oc[0]]
             ctx.violation("liveness", "spec %r, env %r, command line %r: %s" % (c["root"]["spec"], c["env"], c["argv"], what),
